@@ -195,6 +195,18 @@ impl<C: CrcCalculator> Encapsulator<C> {
         self.re_use_activated
     }
 
+    /// Label that `check_label_re_use` will return for `next_label`, without updating the re-use state
+    fn preview_label_re_use(&self, next_label: Label) -> Label {
+        if self.re_use_activated
+            && Some(next_label) == self.last_label
+            && (self.re_max_consecutive == 0u8
+                || self.re_current_consecutive < self.re_max_consecutive)
+        {
+            return Label::ReUse;
+        }
+        next_label
+    }
+
     fn check_label_re_use(&mut self, next_label: Label) -> Label {
         if self.re_use_activated {
             // check label reuse
@@ -338,7 +350,8 @@ impl<C: CrcCalculator> Encapsulator<C> {
             return Err(EncapError::ErrorProtocolType);
         }
 
-        label = self.check_label_re_use(label);
+        // the re-use state is only updated once the packet is sure to be written
+        label = self.preview_label_re_use(label);
         let label_len = label.len();
         let pdu_len = pdu.len();
         let gse_len_min = pdu_len + label_len + PROTOCOL_LEN;
@@ -384,6 +397,9 @@ impl<C: CrcCalculator> Encapsulator<C> {
                 (FRAG_ID_LEN + TOTAL_LENGTH_LEN + PROTOCOL_LEN + label_len + pdu_len_encapsulated)
                     as u16;
         }
+
+        // no more error can occur: update the re-use state
+        label = self.check_label_re_use(metadata.label);
 
         // write gse fixed header
         let header = generate_gse_header(&pkt_type, &label.get_type(), gse_len);
@@ -644,7 +660,8 @@ impl<C: CrcCalculator> Encapsulator<C> {
             return Err(EncapError::ErrorInvalidLabel);
         }
 
-        label = self.check_label_re_use(label);
+        // the re-use state is only updated once the packet is sure to be written
+        label = self.preview_label_re_use(label);
         let label_len = label.len();
         let pdu_len = pdu.len();
         let gse_len_min = pdu_len + label_len + PROTOCOL_LEN + total_len_extensions;
@@ -699,6 +716,9 @@ impl<C: CrcCalculator> Encapsulator<C> {
                 + pdu_len_encapsulated
                 + total_len_extensions) as u16;
         }
+        // no more error can occur: update the re-use state
+        label = self.check_label_re_use(metadata.label);
+
         // write gse fixed header
         let header = generate_gse_header(&pkt_type, &label.get_type(), gse_len);
         let mut offset = FIXED_HEADER_LEN;
